@@ -114,7 +114,7 @@ def run(res, tier, rng):
              "http://x.com?a=1", "http://x.com/a#top", "http://x.com/a/?a=1#top"]
     paths = [None, "p", "/p", "//p/q/", "p q", ["a", "b"], ["/a", "b/"], [1, "x"], [], ""]
     keys = ["k", "a b", "k&", "x=y", "é", "#", "?", "%", "+", "z"]
-    vals = [None, True, False, 1, 0, 1.5, "", "v", "a b", "x&y=z", "é", "#f", "100%", "+"]
+    vals = [None, True, False, 1, 0, 1.5, 2.0, -0.0, 1e16, "", "v", "a b", "x&y=z", "é", "#f", "100%", "+"]
     frags = [None, "f", "#f", "##a#b", ""]
     exts = [None, "html", ".html", "..x"]
     fmt_cases = []
